@@ -518,6 +518,15 @@ func keyIsFloat(c Case) bool {
 	return false
 }
 
+func inputHasUnion(c Case) bool {
+	for _, v := range c.Input.Vals {
+		if oracle.TypeHas(v.Type(), func(t zed.Type) bool { _, ok := t.(*zed.TypeUnion); return ok }) {
+			return true
+		}
+	}
+	return false
+}
+
 func keyHasNullOrMissing(c Case) bool {
 	n, m := keyNullMissing(c)
 	return n || m
@@ -663,6 +672,9 @@ func runCase(c Case) *vt.Outcome {
 		sig = "C07/order-differs"
 	}
 	// known classes (narrow)
+	if strings.Contains(opt.dag, `"partials_out":true`) && strings.Contains(opt.dag, `"kind":"Agg","name":"union"`) && inputHasUnion(c) {
+		sig = "C07/summarize-partials/union-agg-over-union-typed-values"
+	}
 	presorted := false
 	for _, d := range joinDirs(opt.dag) {
 		if d[0] != "unknown" || d[1] != "unknown" {
